@@ -34,12 +34,14 @@ type rpClaim struct {
 type rpNode struct {
 	Name, Pool string
 	Conds      []rpCond
+	Deleting   bool // the Node carries a deletionTimestamp (Terminating, kept by its finalizer)
 }
 type rpCase struct {
 	PID      string // provider id of the reconciled node
 	Pool     string // its nodepool label
 	Conds    []rpCond
 	InAPI    bool
+	SelfTerm bool // the reconciled node itself is Terminating
 	Claims   []rpClaim
 	Policies []rpPolicy
 	Anchor   int // the clock is placed at termination time of policy Anchor (+ Delta); -1: base + Delta
@@ -145,12 +147,22 @@ func doRepair(c *kit.Ctx, x rpCase) {
 	}
 	node := &corev1.Node{ObjectMeta: metav1.ObjectMeta{Name: "self", Labels: label(x.Pool)}, Spec: corev1.NodeSpec{ProviderID: x.PID},
 		Status: corev1.NodeStatus{Conditions: nodeConds(x.Conds)}}
+	var termNodes []*corev1.Node
 	if x.InAPI {
+		if x.SelfTerm {
+			node.Finalizers = []string{v1.TerminationFinalizer}
+			termNodes = append(termNodes, node)
+		}
 		w.add(node)
 	}
 	for _, n := range x.Nodes {
-		w.add(&corev1.Node{ObjectMeta: metav1.ObjectMeta{Name: n.Name, Labels: label(n.Pool)},
-			Spec: corev1.NodeSpec{ProviderID: "fake://" + n.Name}, Status: corev1.NodeStatus{Conditions: nodeConds(n.Conds)}})
+		o := &corev1.Node{ObjectMeta: metav1.ObjectMeta{Name: n.Name, Labels: label(n.Pool)},
+			Spec: corev1.NodeSpec{ProviderID: "fake://" + n.Name}, Status: corev1.NodeStatus{Conditions: nodeConds(n.Conds)}}
+		if n.Deleting {
+			o.Finalizers = []string{v1.TerminationFinalizer}
+			termNodes = append(termNodes, o)
+		}
+		w.add(o)
 	}
 	annotTime := map[string]time.Time{"past": now.Truncate(time.Second).Add(-10 * time.Second), "now": now.Truncate(time.Second),
 		"future": now.Truncate(time.Second).Add(10 * time.Second)}
@@ -184,6 +196,9 @@ func doRepair(c *kit.Ctx, x rpCase) {
 	for _, nc := range deleting {
 		markDeleting(ctx, w.inner, nc)
 	}
+	for _, o := range termNodes {
+		markDeleting(ctx, w.inner, o)
+	}
 	cp := newProvider()
 	cp.RepairPolicy = nil
 	for _, p := range x.Policies {
@@ -206,7 +221,7 @@ func doRepair(c *kit.Ctx, x rpCase) {
 
 	var apiNodes []rpNode
 	if x.InAPI {
-		apiNodes = append(apiNodes, rpNode{"self", x.Pool, x.Conds})
+		apiNodes = append(apiNodes, rpNode{"self", x.Pool, x.Conds, x.SelfTerm})
 	}
 	apiNodes = append(apiNodes, x.Nodes...)
 	gclaims := kit.GListOf(x.Claims, func(cl rpClaim) string {
@@ -220,7 +235,7 @@ func doRepair(c *kit.Ctx, x rpCase) {
 		return fmt.Sprintf("mkRClaim %s %s %s %s", kit.GStr(cl.PID), gOptStr(cl.Pool, cl.Pool != ""), kit.GBool(cl.Deleting), a)
 	})
 	gnodes := kit.GListOf(apiNodes, func(n rpNode) string {
-		return fmt.Sprintf("mkRNode %s %s", gOptStr(n.Pool, n.Pool != ""), gConds(n.Conds))
+		return fmt.Sprintf("mkRNode %s %s %s", gOptStr(n.Pool, n.Pool != ""), kit.GBool(n.Deleting), gConds(n.Conds))
 	})
 	gpol := kit.GListOf(x.Policies, func(p rpPolicy) string {
 		return fmt.Sprintf("mkPolicy %s %s %s", kit.GStr(p.Type), kit.GStr(p.Status), kit.GZ(int64(p.Tol)))
@@ -275,6 +290,25 @@ func doRepair(c *kit.Ctx, x rpCase) {
 			c.Count("repair:claim-already-deleting")
 		}
 	}
+	if listed && nodesResp == "AOk" {
+		termU, termH := 0, 0
+		for _, n := range apiNodes {
+			if n.Deleting {
+				if bad, ok := firstCond(n.Conds, "BadNode"); ok && bad.Status == "False" {
+					termU++
+				} else {
+					termH++
+				}
+			}
+		}
+		if termU+termH > 0 {
+			outcome := "blocked"
+			if dels > 0 || patches > 0 {
+				outcome = "repair-proceeds"
+			}
+			c.Count(fmt.Sprintf("repair:terminating-nodes-listed(unhealthy=%v,healthy=%v) %s", termU > 0, termH > 0, outcome))
+		}
+	}
 	key := ""
 	if nontrivial {
 		key = "R:" + in
@@ -304,7 +338,7 @@ func poolNodes(pool string, others, unhealthyOthers int) []rpNode {
 		if k < unhealthyOthers {
 			cs = unhealthyConds(int64(100 + k))
 		}
-		out = append(out, rpNode{fmt.Sprintf("%s-n%02d", pool, k), pool, cs})
+		out = append(out, rpNode{Name: fmt.Sprintf("%s-n%02d", pool, k), Pool: pool, Conds: cs})
 	}
 	return out
 }
@@ -405,6 +439,50 @@ func runRepair(c *kit.Ctx) {
 						continue
 					}
 					doRepair(c, x)
+				}
+				// the same world with some of the counted nodes Terminating (rolling failure: earlier
+				// repairs are still draining). Unhealthy ones, healthy ones, both, and the node itself.
+				if u == thr || u == thr+1 {
+					x.PoolObj = true
+					for _, term := range []string{"unhealthy1", "unhealthy-all", "healthy1", "both", "self"} {
+						if !c.Thorough() && (term == "unhealthy-all" || term == "self") && n%2 == 1 {
+							continue
+						}
+						y := x
+						y.Nodes = append([]rpNode{}, x.Nodes...)
+						counted := func(nd rpNode) bool { return mode == "cluster" || nd.Pool == "pool" }
+						sick := func(nd rpNode) bool { cd, ok := firstCond(nd.Conds, "BadNode"); return ok && cd.Status == "False" }
+						doneU, doneH := false, false
+						for k := range y.Nodes {
+							nd := &y.Nodes[k]
+							if !counted(*nd) {
+								continue
+							}
+							switch {
+							case sick(*nd) && (term == "unhealthy-all" || (term == "unhealthy1" || term == "both") && !doneU):
+								nd.Deleting, doneU = true, true
+							case !sick(*nd) && (term == "healthy1" || term == "both") && !doneH:
+								nd.Deleting, doneH = true, true
+							}
+						}
+						if mode == "cluster" {
+							// cluster-wide breaker: a terminating unmanaged node counts as well
+							for k := range y.Nodes {
+								if y.Nodes[k].Deleting && k%2 == 0 {
+									y.Nodes[k].Pool = ""
+								}
+							}
+						}
+						if term == "self" {
+							if !y.InAPI {
+								continue
+							}
+							y.SelfTerm = true
+						} else if !doneU && !doneH {
+							continue
+						}
+						doRepair(c, y)
+					}
 				}
 			}
 		}
@@ -563,8 +641,10 @@ func runRepair(c *kit.Ctx) {
 				nd.Pool = "pool"
 				nd.Conds = append([]rpCond{{Type: x.Policies[0].Type, Status: x.Policies[0].Status, At: kit.Pick(r, []int64{100, 1500})}}, nd.Conds...)
 			}
+			nd.Deleting = r.Chance(1, 5)
 			x.Nodes = append(x.Nodes, nd)
 		}
+		x.SelfTerm = x.InAPI && r.Chance(1, 10)
 		x.PoolObj = !r.Chance(1, 5)
 		f := func(p int) string {
 			if r.Chance(1, p) {
